@@ -5,6 +5,62 @@ package keeper
 // Contracts for the verification framework in /verif (comment-only file; compiled
 // only with -tags verif, where it contributes nothing but these comments).
 
+//@ // ---- typed ghost view of the stored parameters (accessor contract assumed) ----
+//@ ghost distParams go:types.Params
+//@ func (k Keeper) GetParams(ctx) (p)
+//@   trusted
+//@   ensures p == $distParams
+//@
+//@ // ---- C13: only governance changes the parameters; what is stored was validated; a rejected update changes nothing ----
+//@ spec func dpKey() str = global("types.ParamsKey")
+//@ pred storedDistParamsOK(k) = $kvHas[storeOf(k.storeKey)][dpKey()] && distParamsValid(decSnap("types.Params", $kvVal[storeOf(k.storeKey)][dpKey()]))
+//@ func (k Keeper) SetParams(ctx, p) (err)
+//@   modifies $kvHas, $kvVal
+//@   ensures err != nil ==> kvUnchanged()
+//@   ensures err == nil ==> distParamsValid(snap(p)) && $kvHas[storeOf(k.storeKey)][dpKey()] && $kvVal[storeOf(k.storeKey)][dpKey()] == enc(p)
+//@   ensures kvOnlyChanged(storeOf(k.storeKey), dpKey())
+//@   prop C13
+//@ func (k msgServer) UpdateParams(goCtx, msg) (resp, err)
+//@   requires msg != nil
+//@   modifies $kvHas, $kvVal
+//@   ensures msg.Authority != k.authority ==> err != nil
+//@   ensures err != nil ==> kvUnchanged()
+//@   ensures err == nil ==> msg.Authority == k.authority && storedDistParamsOK(k.Keeper)
+//@   ensures kvOnlyChanged(storeOf(k.storeKey), dpKey())
+//@   prop C13
+//@ func (k msgServer) UpdateSubDistributorParam(goCtx, distributor) (resp, err)
+//@   requires distributor != nil && distributor.SubDistributor != nil
+//@   modifies $kvHas, $kvVal
+//@   ensures distributor.Authority != k.authority ==> err != nil
+//@   ensures err != nil ==> kvUnchanged()
+//@   ensures err == nil ==> distributor.Authority == k.authority && storedDistParamsOK(k.Keeper)
+//@   ensures kvOnlyChanged(storeOf(k.storeKey), dpKey())
+//@   prop C13
+//@ loop msgServer.UpdateSubDistributorParam#1
+//@   invariant kvUnchanged()
+//@ func (k msgServer) UpdateSubDistributorDestinationShareParam(goCtx, msg) (resp, err)
+//@   requires msg != nil
+//@   modifies $kvHas, $kvVal
+//@   ensures msg.Authority != k.authority ==> err != nil
+//@   ensures err != nil ==> kvUnchanged()
+//@   ensures err == nil ==> msg.Authority == k.authority && storedDistParamsOK(k.Keeper)
+//@   ensures kvOnlyChanged(storeOf(k.storeKey), dpKey())
+//@   prop C13
+//@ loop msgServer.UpdateSubDistributorDestinationShareParam#1
+//@   invariant kvUnchanged()
+//@ loop msgServer.UpdateSubDistributorDestinationShareParam#2
+//@   invariant kvUnchanged()
+//@ func (k msgServer) UpdateSubDistributorBurnShareParam(goCtx, msg) (resp, err)
+//@   requires msg != nil
+//@   modifies $kvHas, $kvVal
+//@   ensures msg.Authority != k.authority ==> err != nil
+//@   ensures err != nil ==> kvUnchanged()
+//@   ensures err == nil ==> msg.Authority == k.authority && storedDistParamsOK(k.Keeper)
+//@   ensures kvOnlyChanged(storeOf(k.storeKey), dpKey())
+//@   prop C13
+//@ loop msgServer.UpdateSubDistributorBurnShareParam#1
+//@   invariant kvUnchanged()
+
 //@ // ---- declared effects (checked per call instruction by the effect checker; anything not listed is effect-free) ----
 //@ effects Keeper.BurnCoinsForSpecifiedModuleAccount bank.burn
 //@ effects Keeper.PrepareCoinsToDistribute bank.send
